@@ -317,11 +317,18 @@ Variants(fd) ==
          \cup (IF fd.c = "sob" THEN {"f"} ELSE {})
          \cup (IF CanRef(fd) THEN {"ref", "refsib", "xref", "xfrag", "xrefsib"} ELSE {})
          \cup (IF fd.c = "pref" THEN {"xref", "xfrag"} ELSE {})
+         (* the ORDER of a sequence is part of its value.  `type' may be written as an array of names (the     *)
+         (* library's reader takes both forms): two names not in alphabetical order, three in reverse order,   *)
+         (* two that are.  A one-element array is written back as the bare name and an empty one is dropped:   *)
+         (* the statement is silent on those spellings, they are not generated; nor are repeated names.        *)
+         \cup (IF fd.c = "type" THEN {"multi", "multi3", "msorted"} ELSE {})
+         (* an array of objects: three elements whose names / urls / markers are in no sorted order *)
+         \cup (IF fd.c = "arr" THEN {"ord"} ELSE {})
          \cup (IF fd.c \in {"map", "strmap", "anymap"} THEN {"mk"} ELSE {})     \* map keys are data: two keys with upper case, dots, parameters ...
 (* variants that leave the document in normal form *)
 NormalVariant(fd, var) == ~(var \in {"refsib", "xrefsib"} \/ (var = "z" /\ fd.zr = "red"))
 
-RECURSIVE Val(_, _, _), Min(_), Small(_)
+RECURSIVE Val(_, _, _), Min(_), Small(_), Tagged(_, _)
 (* Min: required fields only (nested required objects minimal too) *)
 Min(kind) ==
    LET fs  == Fields(kind)
@@ -330,7 +337,17 @@ Min(kind) ==
 (* Small: Min plus one extension, used as the value of nested-object fields *)
 Small(kind) == IF ExtOK(kind) THEN SetKey(Min(kind), "x-s", Sv(kind)) ELSE Min(kind)
 
-SecReqsV == Av(<<Ov(<<"k">>, <<Av(<<Sv("s1"), Sv("s2")>>)>>), Ov(<<"k2">>, <<EmptyA>>), EmptyO>>)
+(* Tagged: the Small object with tag put in front of every required free string (name, url, title ...) and  *)
+(* into a marker extension: elements of one array that differ in everything a sort could look at              *)
+Tagged(kind, tag) ==
+   LET fs == Fields(kind)
+       o  == Small(kind)
+       re == [i \in DOMAIN o.k |-> IF \E j \in DOMAIN fs : fs[j].n = o.k[i] /\ fs[j].c = "str" /\ fs[j].req /\ o.k[i] \notin DOMAIN FixedStr
+                                   THEN Sv(tag \o o.v[i].s) ELSE o.v[i]]
+       t  == Ov(o.k, re)
+   IN IF ExtOK(kind) THEN SetKey(t, "x-o", Sv(tag)) ELSE SetKey(t, tag, EmptyA)
+(* (the scopes, and the requirements themselves, in no sorted order) *)
+SecReqsV == Av(<<Ov(<<"k">>, <<Av(<<Sv("s2"), Sv("s1"), Sv("s3")>>)>>), EmptyO, Ov(<<"k2">>, <<EmptyA>>), Ov(<<"a">>, <<EmptyA>>)>>)
 SibOf(ref) == Ov(<<"$ref", "description", "x-sib">>, <<Sv(ref), Sv("sibling"), Nm("1")>>)
 RefSib(kind) == SibOf(RefStr(kind))
 
@@ -345,7 +362,10 @@ Val(kind, fd, var) ==
    IF var = "z" THEN ZeroOf(fd.c)
    ELSE CASE fd.c \in {"str", "strp"} -> Sv(StrOf(fd.n))
           [] fd.c = "pref" -> Sv(IF var = "xref" THEN XRefStr(kind) ELSE IF var = "xfrag" THEN XFragStr(kind) ELSE RefStr(kind))
-          [] fd.c = "type" -> Sv("string")
+          [] fd.c = "type" -> CASE var = "multi" -> Av(<<Sv("string"), Sv("null")>>)
+                                [] var = "multi3" -> Av(<<Sv("string"), Sv("integer"), Sv("boolean")>>)
+                                [] var = "msorted" -> Av(<<Sv("integer"), Sv("string")>>)
+                                [] OTHER -> Sv("string")
           [] fd.c \in {"bool", "boolp"} -> Bv(TRUE)
           [] fd.c = "num"  -> IF var = "big" THEN Nm(BigI64) ELSE IF var = "neg" THEN Nm("-1.5") ELSE Nm("2.5")
           [] fd.c = "umin" -> Nm("3")
@@ -362,7 +382,8 @@ Val(kind, fd, var) ==
           [] fd.c = "anymap" -> IF var = "mk" THEN Ov(MapKeys2(fd), <<Sv("a"), Nm("1")>>) ELSE Ov(<<"p", "q">>, <<AnyV, Sv("$request.path.id")>>)
           [] fd.c = "obj"  -> nested(fd.k)
           [] fd.c = "map"  -> IF var = "mk" THEN Ov(MapKeys2(fd), <<nested(fd.k), Min(fd.k)>>) ELSE O1(MapKeyOf(fd), nested(fd.k))
-          [] fd.c = "arr"  -> Av(<<nested(fd.k)>>)
+          [] fd.c = "arr"  -> IF var = "ord" THEN Av(<<Tagged(fd.k, "m"), Tagged(fd.k, "z"), Tagged(fd.k, "a")>>)
+                              ELSE Av(<<nested(fd.k)>>)
           [] fd.c \in {"secreqs", "secreqsp"} -> SecReqsV
           [] fd.c = "sob"  -> IF var = "f" THEN Bv(FALSE) ELSE nested(fd.k)
 
